@@ -1,6 +1,6 @@
 (* C02: encode then decode returns the same message.  Proofs: Proofs/BuildFacts.v, DecComplete.v *)
 Require Import DV.Base.Bytes DV.Base.Utf8 DV.Model.Leaf DV.Spec.Wire DV.Model.Avp DV.Model.Message
-  DV.Model.Dict DV.Model.Build DV.Proofs.AvpFacts DV.Proofs.DecSound DV.Proofs.DecComplete DV.Proofs.BuildFacts.
+  DV.Model.Dict DV.Model.Build DV.Proofs.AvpFacts DV.Proofs.DecSound DV.Proofs.DecComplete DV.Proofs.BuildFacts DV.Proofs.HeaderFacts.
 Local Open Scope N_scope.
 
 (* equality of the model record is equality of header fields, AVP order, code, vendor id, flags,
@@ -26,3 +26,14 @@ Print Assumptions C02_any_image_decodes.
 Theorem C02_stored_lengths_determined : forall a a', consistent a -> consistent a' -> abs a = abs a' -> a = a'.
 Proof. exact abs_inj. Qed.
 Print Assumptions C02_stored_lengths_determined.
+
+(* outside the round-trip domain too (AVPs the dictionary types differently, values the wire cannot carry exactly, any depth): when a
+   message encodes and its encoding decodes, the HEADER comes back as it was - version, length, flags, command, application and both
+   identifiers; each field under the one hypothesis that it fits its width (which the Rust types guarantee) *)
+Theorem C02_header_roundtrip : forall lim d a bs a',
+  enc_msg a = Ok bs -> dec_msg lim d bs = Ok a' ->
+  (m_ver a < 256 -> m_ver a' = m_ver a) /\ (m_len a' = m_len a) /\ (m_flags a < 256 -> m_flags a' = m_flags a) /\
+  (m_cmd a < 16777216 -> m_cmd a' = m_cmd a) /\ (m_app a < 4294967296 -> m_app a' = m_app a) /\
+  (m_hbh a < 4294967296 -> m_hbh a' = m_hbh a) /\ (m_e2e a < 4294967296 -> m_e2e a' = m_e2e a).
+Proof. exact header_survives. Qed.
+Print Assumptions C02_header_roundtrip.
